@@ -42,7 +42,10 @@ QUERIES = ['q:antimask', 'q:corners', 'q:slicer', 'q:wod', 'q:count', 'shun:arr'
            'q:median', 'holdw', 'q:heldw'] + ['q:' + k for k in DERIVED]
 ARITH = ['iadd', 'isub', 'imul', 'itruediv', 'ifloordiv', 'imod', 'ipow']
 LOGIC = ['iand', 'ior', 'ixor']
-MUTS = ([o + ':' + k for o in ARITH for k in ('num', 'arr', 'obj', 'objm', 'objT', 'objd')] + ['itruediv:zero'] +
+# divisors whose VALUES mask the result (zeros at some positions / the number 0) although they carry no mask
+DIVS = ['itruediv', 'ifloordiv', 'imod']
+MUTS = ([o + ':' + k for o in ARITH for k in ('num', 'arr', 'obj', 'objm', 'objT', 'objd')] +
+        [o + ':' + k for o in DIVS for k in ('zero', 'objz', 'arrz', 'objzd')] +
         [o + ':' + k for o in LOGIC for k in ('bool', 'arr', 'obj', 'objm', 'objT')] +
         ['set:0:num', 'set:0:masked', 'set:sl:obj', 'set:sl:objm', 'set:all:num', 'set:all:objd', 'set:bm:num',
          'set:mi:num'] +
@@ -73,16 +76,16 @@ ALPHABET = {n: _alphabet(n) for n in OBJECTS}
 _CQ = ['q:antimask', 'q:corners', 'q:slicer', 'q:wod']
 COMPACT = {
     'S3m': _CQ + ['iadd:num', 'imul:objm', 'set:0:masked', 'set:sl:obj', 'insd:t', 'units:km', 'ro', 'shun:arr', 'q:times2'],
-    'S3': _CQ + ['isub:arr', 'itruediv:zero', 'imod:objm', 'set:bm:num', 'set:mi:num', 'insd:t', 'deld:t', 'hold:arr', 'unheld'],
+    'S3': _CQ + ['isub:arr', 'itruediv:zero', 'imod:objm', 'imod:objz', 'ifloordiv:arrz', 'set:bm:num', 'set:mi:num', 'insd:t', 'deld:t', 'hold:arr', 'unheld'],
     'S0': _CQ + ['iadd:num', 'imul:num', 'iadd:objm', 'set:all:num', 'set:sl:objm', 'insd:t', 'shun:arr', 'ro'],
-    'S0d': _CQ + ['iadd:num', 'isub:arr', 'imul:num', 'itruediv:num', 'imod:num', 'ifloordiv:num', 'deld:t', 'units:km', 'ro', 'q:plus1'],
+    'S0d': _CQ + ['iadd:num', 'isub:arr', 'imul:num', 'itruediv:num', 'imod:num', 'ifloordiv:num', 'imod:objz', 'itruediv:objzd', 'deld:t', 'units:km', 'ro', 'q:plus1'],
     'S3d': _CQ + ['iadd:num', 'imul:num', 'iadd:objd', 'imul:objm', 'set:0:masked', 'delds', 'ro', 'ro:nr', 'shun:arr', 'q:div2', 'holdw', 'q:heldw'],
-    'S23m': _CQ + ['set:0:num', 'set:sl:objm', 'iadd:objm', 'imul:objT', 'shun:arr', 'hold:arr', 'unheld', 'q:mod2', 'q:minus1'],
-    'I3': _CQ + ['iand:objm', 'ior:arr', 'ixor:obj', 'iadd:num', 'ifloordiv:obj', 'imod:objm', 'insd:t'],
+    'S23m': _CQ + ['set:0:num', 'set:sl:objm', 'iadd:objm', 'imul:objT', 'shun:arr', 'hold:arr', 'unheld', 'q:mod2', 'q:minus1', 'imod:arrz', 'itruediv:objz'],
+    'I3': _CQ + ['iand:objm', 'ior:arr', 'ixor:obj', 'iadd:num', 'ifloordiv:obj', 'ifloordiv:objz', 'imod:objm', 'imod:zero', 'insd:t'],
     'I0d': _CQ + ['iand:bool', 'ior:objm', 'iadd:num', 'imul:num', 'deld:t', 'ro'],
     'B3': _CQ + ['iand:objm', 'ior:objm', 'ixor:objm', 'iand:bool', 'ior:arr', 'set:0:masked', 'shun:arr'],
     'B0': _CQ + ['iand:objm', 'ior:bool', 'ixor:objT', 'set:all:num', 'set:sl:objm', 'ro'],
-    'V2d': _CQ + ['iadd:objm', 'imul:num', 'imul:objm', 'itruediv:num', 'set:0:masked', 'deld:t', 'units:km'],
+    'V2d': _CQ + ['iadd:objm', 'imul:num', 'imul:objm', 'itruediv:num', 'itruediv:objz', 'set:0:masked', 'deld:t', 'units:km'],
     'V0': _CQ + ['iadd:obj', 'imul:num', 'imul:objT', 'set:all:num', 'insd:t'],
     'M2': _CQ + ['imul:num', 'imul:obj', 'iadd:objm', 'set:0:masked', 'ro'],
     'S3ro': _CQ + ['iadd:num', 'insd:u', 'deld:t', 'units:km', 'set:0:num', 'shun:arr'],
@@ -126,6 +129,12 @@ def _scalar_like(a, kind):
             vals = vals.astype(int)
     else:
         vals = 2 if a.is_int() else 2.
+    if kind in ('objz', 'objzd'):
+        # unmasked, zero at the last position (the only position of a shapeless operand)
+        if a._shape_:
+            vals.flat[-1] = 0
+        else:
+            vals = 0 if a.is_int() else 0.
     if kind == 'objm':
         if a._shape_:
             m = np.zeros(a._shape_, dtype=bool); m.flat[-1] = True
@@ -136,7 +145,7 @@ def _scalar_like(a, kind):
     else:
         m = False
     b = Scalar(vals, m)
-    if kind == 'objd' and b.is_float():
+    if kind in ('objd', 'objzd') and b.is_float():
         b.insert_deriv('t', Scalar(vals)); b.insert_deriv('w', Scalar(vals))
     return b
 
@@ -225,6 +234,13 @@ def apply_op(st, op):
         elif k == 'arr':
             arg = np.full(np.shape(a._values_), 2 if a.is_int() else 2.) if np.shape(a._values_) else \
                 np.array(2 if a.is_int() else 2.)
+        elif k == 'arrz':
+            # a plain ndarray of the leading shape with a zero at the last position
+            arg = np.full(a._shape_, 2 if a.is_int() else 2.)
+            if a._shape_:
+                arg.flat[-1] = 0
+            else:
+                arg = np.array(0 if a.is_int() else 0.)
         elif h in ('iadd', 'isub'):
             arg = _same(a, k)
         else:
